@@ -4,7 +4,7 @@ headers x random firmware-like policies ; TraceBlockExchange judges what the dev
 import json
 import random
 
-from .. import blockx, core, reqs, tlc
+from .. import blockx, core, mgr, reqs, tlc
 
 BL = [3, 2]
 BR = [[2], []]
@@ -116,12 +116,38 @@ def run(ctx):
         info[t["id"]] = dict(meta, src="long-run", advance=True, step=step[0] if step[0] == "new" else "again@%d" % step[2])
         n_long += 1
     res.coverage["long_run_requests"] = n_long
+    # a second failure on a link that has just been repaired: a link error on some request, then a block command
+    # during which the manager first repairs the link and then loses the answer to one of its own exchanges (the
+    # device did get what was sent): nothing may be sent twice, nothing may be reported as success
+    dbench = blockx.Bench()
+    n_double = 0
+    for i in range(ctx.pick(60, 800)):
+        install_world = dbench.world
+        from ..transport import install as _install
+        _install(install_world)
+        install_world.reset_counters()
+        install_world.faults = {0: (ctx.rng.choice(["read", "write"]),)}
+        mgr.handle_line(dbench.proto, json.dumps(reqs.make("getPubKey", ctx.rng)[0]).encode())
+        install_world.faults = {}
+        install_world.reset_counters()
+        advance = ctx.rng.random() < 0.6
+        blocks = reqs.blocks(ctx.rng, 2, advance, bro_counts=[ctx.rng.choice([0, 1, 2]), 0] if advance else None)
+        t, meta = dbench.run(blocks, advance, FaithfulBlockPolicy(), ctx.rng, coop=False, heal=False,
+                             lost_answer_at=ctx.rng.randrange(1, 16))
+        t["id"] = len(traces) + 1
+        traces.append(t)
+        info[t["id"]] = dict(meta, src="double-fault", advance=advance)
+        n_double += 1
+        if meta["shutdown"]:
+            dbench = blockx.Bench()
+    res.coverage["double_fault_requests"] = n_double
     # scale: counts that need more than a byte (255 / 256 / 257 blocks in one request, 255 brothers for one block)
     n_scale = 0
     for nb, bro in ((255, None), (256, None), (257, None), (2, [255, 1]), (1, [254])) if ctx.quick else \
             ((255, None), (256, None), (257, None), (300, None), (1000, None), (2, [255, 1]), (1, [254]), (3, [255, 255, 255])):
         for advance in ((True, False) if bro is None else (True,)):
-            blocks = reqs.blocks(ctx.rng, nb, advance, bro_counts=(bro if bro is not None else [0] * nb) if advance else None)
+            blocks = reqs.blocks(ctx.rng, nb, advance, bro_counts=(bro if bro is not None else [0] * nb) if advance else None,
+                                 dup=False)
             t, meta = lbench.run(blocks, advance, FaithfulBlockPolicy(), ctx.rng, coop=True)
             t["id"] = len(traces) + 1
             traces.append(t)
